@@ -114,6 +114,8 @@ class Build:
                                    "allocator_may_return_null=1:detect_stack_use_after_return=0")
             env["UBSAN_OPTIONS"] = "print_stacktrace=1:halt_on_error=1"
             env["ASAN_SYMBOLIZER_PATH"] = "/usr/bin/llvm-symbolizer-14"
+        if kind == "V":
+            env["LLVM_PROFILE_FILE"] = os.path.join(self.flavour(kind), "cov-%p.profraw")
         if extra:
             env.update(extra)
         return env
